@@ -70,8 +70,9 @@ def attr_c19(ev, names):
 
 PROPS = {
     "C01": dict(
-        level_text='RoundOnce (exact value rounded once) is validated against an independent relational restatement, idempotence, monotonicity and the bracket laws by TLC (MC_Round); the implementation-shaped AlgRound refines it (MC_AlgRound, with the pinned tree as negative control); every recorded Add/Sub/Mul/Quo/Abs/Neg/Round/context-parse call over the spec-exported boundary domain S, the seeded domain L and the GDA vectors is validated by TLC against Spec_<Op>.',
-        mc=[("MC_BigNat", None), ("MC_Round", None), ("MC_AlgRound", None), ("MC_AlgRound", "MC_AlgRound_pinned", "expect-violation")],
+        level_text='RoundOnce (exact value rounded once) is validated against an independent relational restatement, idempotence, monotonicity and the bracket laws by TLC (MC_Round); the implementation-shaped AlgRound refines it (MC_AlgRound, with the pinned tree as negative control), and so do the transcriptions of Context.add / Mul / Abs / Neg / Reduce / Decimal.Cmp (MC_AlgArith, negative control: the -0-under-floor rule removed), which every recorded call must also match bit for bit (alg_model_drift); every recorded Add/Sub/Mul/Quo/Abs/Neg/Round/context-parse call over the spec-exported boundary domain S, the seeded domain L and the GDA vectors is validated by TLC against Spec_<Op>.',
+        mc=[("MC_BigNat", None), ("MC_Round", None), ("MC_AlgRound", None), ("MC_AlgRound", "MC_AlgRound_pinned", "expect-violation"),
+            ("MC_AlgArith", None), ("MC_AlgArith", "MC_AlgArith_nofloor", "expect-violation")],
         drivers=["arithS", "arithL", "ctxparse", "vectors:add,sub,mul,quo,abs,neg,round"],
         attr=attr_c01,
         rule="every recorded Add/Sub/Mul/Quo/Abs/Neg/Round call (domain S from the spec, seeded domain L) is judged by "
@@ -184,7 +185,7 @@ PROPS["C06"] = dict(
 
 PROPS["C15"] = dict(
     level_text='MC_Order checks the order axioms of CmpTotalSpec/CmpSpec on 66^3 triples; recorded comparisons are validated against them and observed 6x6 result matrices against the axioms without an oracle.',
-    mc=[("MC_Order", None)],
+    mc=[("MC_Order", None), ("MC_AlgArith", None), ("MC_AlgArith", "MC_AlgArith_noflip", "expect-violation")],
     drivers=["order"],
     attr=lambda ev, names: ev.get("k") in ("o", "om"),
     rule="every pair of 54 colliding representations plus seeded pairs engineered per code path (equal exponents, equal "
@@ -193,8 +194,9 @@ PROPS["C15"] = dict(
 )
 
 PROPS["C19"] = dict(
-    level_text='NumDigits judged against the limb length for every decimal-digit boundary to 10^12000 and seeded values; Reduce (Context and Decimal) judged by value, no trailing zero, count, with destination pre-states.',
-    mc=[("MC_BigNat", None)],
+    level_text='NumDigits judged against the limb length for every decimal-digit boundary to 10^12000 and seeded values; the lookup algorithm of table.go is transcribed (AlgNumDigits) and model-checked equal to the limb length on every value below 2^11 and around every power of two and ten to 10^60 (10^200 thorough), two pinned variants as negative controls, recorded calls compared with it; Reduce (Context and Decimal) judged by value, no trailing zero, count, with destination pre-states.',
+    mc=[("MC_BigNat", None), ("MC_AlgArith", None), ("MC_AlgNumDigits", None),
+        ("MC_AlgNumDigits", "MC_AlgNumDigits_noborder", "expect-violation"), ("MC_AlgNumDigits", "MC_AlgNumDigits_gt", "expect-violation")],
     drivers=["numdigits", "reduceL"],
     attr=attr_c19,
     rule="NumDigits on every bit length 0..260 at 2^n-1, 2^n, 2^n+1, every power of ten 10^k-1, 10^k, 10^k+1 (k<=80 and "
